@@ -24,6 +24,8 @@ RULE = ("MC: exhaustive TLC runs of LiteClient (one action per critical section 
         "answer written in two TCP pieces with a pause (cut inside the size prefix after 1, 2, 3 bytes / nonce / payload / checksum), a soak, "
         "the handshake acknowledgement followed at once (same write / next write) by an unsolicited packet on initial connections and "
         "reconnections, a reconnection whose handshake the server answers only after deadline + slack while calls go on, "
+        "callers with their own context deadline / cancellation far below the client timeout, one answer held back for > 10 s on a connection "
+        "that meanwhile carries only ping / pong (no reconnect may happen: a reader takes the silence branch only 10 s after its last packet), "
         "and (thorough) the 10 s silence expiry; a call still inside Request after deadline + slack + 1 s is reported, not awaited. "
         "distinct = executions whose trace was accepted + hook-free executions that passed the harness assertions.")
 
@@ -200,6 +202,10 @@ def finalize(ck, plan, vecs, next_id):
             # every handshake acknowledgement (initial and after reconnects) is followed at once by an unsolicited packet
             sc["eager"] = 1 + (sid // 6) % 2
             sc["cls"] += "+eager"
+        if sid % 7 == 4 and sc["timeout_ms"] == long_to:
+            # the callers bring their own contexts: deadline / cancellation earlier than the client's timeout (by call number)
+            sc["ctx_mode"], sc["ctx_ms"] = 3, 250
+            sc["cls"] += "+ctx"
         if sid % 5 == 2:
             # authenticated connections; unsolicited packets become repeated tcp.authentificationNonce / other auth constructors
             sc["auth"] = True
@@ -284,6 +290,8 @@ def harness_findings(x):
         out.append(("C12:call-outlives-deadline", "calls %s were still inside Request more than %d ms + 1 s after their %d ms deadline: %s" % (
             r.get("hung_calls", [])[:8], SLACK_MS, r["timeout_ms"], r.get("hang_stacks", "")[:1200])))
         return out
+    if r.get("unanswered"):
+        out.append(("C12:answer-lost-on-live-connection", "calls %s did not get the answer the server sent on a connection it never closed" % r["unanswered"][:8]))
     if r["payload_mismatch"]:
         out.append(("C12:payload-mismatch", "calls %s returned bytes that are not the server's answer for their query id" % r["payload_mismatch"][:8]))
     if r["late"]:
@@ -321,11 +329,13 @@ def trace_key(rj, res, script=None):
         tmo, t0 = seg[0].get("timeout", 0), {}
         for ev in seg[1:rj["accepted"]]:
             if ev["k"] == "call":
-                t0[ev["i"]] = ev["t"]
+                t0[ev["i"]] = ev["t"] + ev.get("dl", tmo) - tmo
             elif ev["k"] == "return":
                 t0.pop(ev["i"], None)
         if any(e["t"] > t + tmo + SLACK_MS for t in t0.values()):
             return "C12:call-outlives-deadline"
+    if k == "cr.silence":
+        return "C12:reconnect-of-a-live-connection"       # the silence branch although a packet (a pong is one) arrived less than 10 s ago
     if k == "pkt.exit":
         return "C12:reader-exits-on-open-connection"     # the packet goroutine gave up although nobody closed the socket
     if k == "conn.up.again":
@@ -505,6 +515,25 @@ def run(ck):
         bare.append({"id": 260000 + j, "plan": "stall", "ncalls": 0, "nconns": 1 + j, "timeout_ms": to, "bg_callers": 2 + j, "bg_calls": stall // 200 + 8, "bg_gap_ms": 200,
                      "steps": [{"a": "pause", "i": 0, "k": 0, "of": 0, "ms": 150}, {"a": "stall", "i": 0, "k": 1, "of": 0, "ms": stall}],
                      "followup": 2, "mode": "traced", "jitter": False, "cls": "stall"})
+    # caller contexts: deadline (calls n%3=1) or cancellation (n%3=2) 300 ms after the start, far below the client's timeout; most answers
+    # never arrive: each call must return by its own limit
+    for j in range(1 if not ck.thorough else 3):
+        cto = 300 + 2 * SLACK_MS + 1500
+        st = [{"a": "recv", "i": i} for i in range(1, 8)] + [{"a": "ans", "i": 3}, {"a": "ans", "i": 4}, {"a": "ans", "i": 5}]
+        for x in st:
+            for f in ("i", "k", "of"):
+                x.setdefault(f, 0)
+        bare.append({"id": 270000 + j, "plan": "ctx", "ncalls": 7, "nconns": 1 + j, "timeout_ms": cto, "steps": st, "ctx_mode": [3, 1, 2][j], "ctx_ms": 300,
+                     "bg_callers": 0, "bg_calls": 0, "followup": 1, "mode": "traced" if j != 1 else "bare", "jitter": j == 2, "cls": "ctx"})
+    # a connection that carries only ping / pong for more than the 10 s of the silence timer: one call whose answer the server holds back
+    # for 11.5 s (12.5 s) while it answers the pings; the connection must not be re-dialled and the answer must arrive
+    for j in range(1 if not ck.thorough else 3):
+        st = [{"a": "recv", "i": 1}, {"a": "pause", "ms": 11500 + 500 * j}, {"a": "ans", "i": 1}]
+        for x in st:
+            for f in ("i", "k", "of"):
+                x.setdefault(f, 0)
+        bare.append({"id": 280000 + j, "plan": "hold", "ncalls": 1, "nconns": 1 + j % 2, "timeout_ms": 15000, "steps": st, "must_answer": [1],
+                     "bg_callers": 0, "bg_calls": 0, "followup": 1, "mode": "traced" if j < 2 else "bare", "jitter": False, "cls": "hold"})
     silence = []
     if ck.thorough:
         for j in range(2):
@@ -513,7 +542,7 @@ def run(ck):
 
     # ---- S->C: execute
     par = 12 if not ck.thorough else 16
-    todo = sorted(scripts + bare + silence, key=lambda sc: 0 if sc["plan"] in ("outage", "silence") else 1 if sc["plan"] in ("stall", "burst", "soak", "auth", "split", "eager") else 2)
+    todo = sorted(scripts + bare + silence, key=lambda sc: 0 if sc["plan"] in ("outage", "silence", "hold") else 1 if sc["plan"] in ("ctx", "stall", "burst", "soak", "auth", "split", "eager") else 2)
     t_ex = time.time()
     execs = vlib.parallel(lambda s: execute(ck, binary, s, "x"), todo, n=par)
     ck.extra["exec_wall_s"] = round(time.time() - t_ex, 1)
@@ -624,6 +653,52 @@ def run(ck):
         cans.append(("C->S: logged lookup result flipped", s, i))
         s = copy.deepcopy(seg); s[-1]["gor"] = dict(s[-1]["gor"], pkt=s[-1]["gor"]["pkt"] + 1)
         cans.append(("C->S: one more packet goroutine in the census", s, len(s) - 1))
+        # new clauses, on their own files (other connection counts / call counts)
+        def own_canary(nm, segs, nconns, ncalls, want):
+            cp2 = os.path.join(ck.work, "canary_%s.ndjson" % re.sub(r"\W+", "_", nm)[:40])
+            vlib.write_ndjson(cp2, [e for sg in segs for e in sg] + [{"k": "End"}])
+            st_, trn_, ok_, evn_ = ck.states, ck.transitions, ck.traces_ok, ck.evaluations
+            _, rej2 = ck.validate_segments("LiteClient_Trace", trace_cfg(ck, nconns, ncalls), cp2, name="canary_" + re.sub(r"\W+", "_", nm)[:20], heap_gb=4)
+            ck.states, ck.transitions, ck.traces_ok, ck.evaluations = st_, trn_, ok_, evn_
+            acc = {}
+            base2 = 1
+            for sg in segs:
+                mine2 = [r for r in rej2 if r["seg"] == base2]
+                acc[base2] = mine2[0]["accepted"] if mine2 else len(sg)
+                base2 += len(sg)
+            ck.canary(nm, list(acc.values()) == want)
+        # (a) silence: a reader that took a pong at t = 100 ms may not take the silence branch at 5 s; at 10.15 s it may
+        def sil(tm):
+            return [{"k": "Reset", "id": 0, "cls": "canary", "nconns": 1, "ncalls": 0, "timeout": 300, "scripted": 0, "drops": 0},
+                    {"k": "srv.pong", "c": 1, "g": 1, "seq": 1, "t": 100}, {"k": "cr.pong", "c": 1, "g": 1, "ok": 0, "seq": 2, "t": 100},
+                    {"k": "cr.silence", "c": 1, "g": 1, "seq": 3, "t": tm}]
+        own_canary("C->S: silence branch 4.9 s after a pong (rejected) / 10.05 s after it (accepted)", [sil(5000), sil(10150)], 1, 1, [3, 4])
+        # (b) the caller's own deadline: a call that returned a timeout at its 300 ms context deadline is not justified if its limit were later
+        cx = next((y for y in traced if y.script["plan"] == "ctx" and not verdicts.get(y.script["id"]) and y.trace), None)
+        if cx is None:
+            raise Infra("no accepted execution with caller contexts to build the deadline canary from")
+        sg = segments_of(cx.trace)
+        tcall = next(e["i"] for e in sg if e["k"] == "ret.timeout" and any(c["k"] == "call" and c["i"] == e["i"] and "dl" in c for c in sg))
+        s1 = copy.deepcopy(sg)
+        for e in s1:
+            if e["k"] == "call" and e["i"] == tcall:
+                e["dl"] = e["dl"] + 1500
+        s2 = copy.deepcopy(sg)
+        vic = next(e["i"] for e in s2 if e["k"] == "call" and "dl" not in e and e["i"] <= cx.script["ncalls"] and
+                   not any(a["k"] == "ret.answer" and a["i"] == e["i"] for a in s2))
+        for e in s2:
+            if e["k"] == "call" and e["i"] == vic:
+                e["dl"] = 300          # had it had a 300 ms deadline, returning at the client timeout would be too late
+        i1 = next(i for i, e in enumerate(s1) if e["k"] == "ret.timeout" and e["i"] == tcall)
+        cp3 = os.path.join(ck.work, "canary_ctx.ndjson")
+        vlib.write_ndjson(cp3, s1 + s2 + [{"k": "End"}])
+        st_, trn_, ok_, evn_ = ck.states, ck.transitions, ck.traces_ok, ck.evaluations
+        _, rej3 = ck.validate_segments("LiteClient_Trace", trace_cfg(ck, cx.script["nconns"], sg[0]["ncalls"]), cp3, name="canary_ctx", heap_gb=4)
+        ck.states, ck.transitions, ck.traces_ok, ck.evaluations = st_, trn_, ok_, evn_
+        m1 = [r for r in rej3 if r["seg"] == 1]
+        m2 = [r for r in rej3 if r["seg"] == 1 + len(s1)]
+        ck.canary("C->S: a timeout returned 1.5 s before the call's (raised) limit", len(m1) == 1 and m1[0]["accepted"] == i1)
+        ck.canary("C->S: a call given a 300 ms limit that returns at the client timeout", len(m2) == 1 and m2[0]["accepted"] < len(s2) - 1)
         cp = os.path.join(ck.work, "canary_trace.ndjson")
         vlib.write_ndjson(cp, [e for _, s, _ in cans for e in s] + [{"k": "End"}])
         st, trn, ok, evn = ck.states, ck.transitions, ck.traces_ok, ck.evaluations
